@@ -256,7 +256,9 @@ def gen_program(rng, exhaustive_shape=None):
                 _, name, ix, f, val = op
                 et, dims, store = m.arrays[name]
                 val = val or rand_value(rng, ftype[f])
-                L.append("%s(%s).%s = %s" % (name, idx_text(ix), f, lit(val)))
+                # a fixed-length string field may be spelled with the $ qualifier: it stays a STRING * n slot
+                fq = "$" if isinstance(ftype[f], tuple) and rng.random() < 0.3 else ""
+                L.append("%s(%s).%s%s = %s" % (name, idx_text(ix), f, fq, lit(val)))
                 rec, leaf = rec_get(store[ix], f)
                 rec[leaf] = conv(ftype[f], val)
             elif k == "read":
@@ -368,7 +370,8 @@ def gen_program(rng, exhaustive_shape=None):
             elif k == "scalar_field":
                 f = op[1]
                 val = rand_value(rng, ftype[f])
-                L.append("R1.%s = %s" % (f, lit(val)))
+                fq = "$" if isinstance(ftype[f], tuple) and rng.random() < 0.3 else ""
+                L.append("R1.%s%s = %s" % (f, fq, lit(val)))
                 rec, leaf = rec_get(m.scalars["R1"], f)
                 rec[leaf] = conv(ftype[f], val)
             elif k == "redim":
